@@ -29,6 +29,7 @@ def inner_rel(st, slize_z, top, bot, step, width):
                  bot <= last, last < top)
     if abs(c) == 1:
         rel = z3.And(rel, top - bot == width)
+    rel = z3.And(rel, c_slice.tight_bounds(c, top, bot, width))
     return sp, rel
 
 
@@ -277,3 +278,42 @@ def names_engine():
 
 
 VERIFY_NAMES = [ExportModuleName()]
+
+
+# ---------------------------------------------------------------------------------------------------------------------
+# elab/passes/slices.py:_indices - the positions a slice selects in its parent, in selection order (C03).  Over the
+# contracts of Slice.top / bot / step (one resolved index): a range starting at the first selected position, stepping by
+# the slice's step, as long as the slice is wide.
+# ---------------------------------------------------------------------------------------------------------------------
+class Indices(Contract):
+    key = "hdl21.elab.passes.slices:_indices"
+    props = ("C03",)
+    pure = False
+    raises = (ValueError,)
+
+    def scenarios(self, eng):
+        for nm, mk in index_scenarios((None, 1, -1, 2, -3)):
+            def setup(eng, st, mk=mk):
+                return {"slize": mk_slice(eng, st, mk())}
+            yield Scenario(nm, setup)
+
+    def pre(self, eng, st, a):
+        return cache_coherent(st, a.slize.z)
+
+    def frame(self, eng, st, a):
+        st.heap.havoc_at("_inner", a.slize.z)
+
+    def p_range(self, eng, st0, st, a, res):
+        from pyvc.pysem import SRange
+        sp = c_slice.SliceInnerContract.spec(st0, a)
+        if isinstance(res, range):
+            res = SRange(res.start, res.stop, res.step)
+        if not isinstance(res, SRange):
+            return False
+        return z3.And(z3.BoolVal(res.step == sp["step"]), zint(res.start) == sp["first"], zint(res.length()) == sp["n"])
+    posts = property(lambda self: [("selection-order", self.p_range)])
+    reasons = property(lambda self: {ValueError: lambda eng, st0, a: z3.Not(
+        c_slice.SliceInnerContract.spec(st0, a)["ok"])})
+
+
+VERIFY_INDICES = [Indices()]
